@@ -67,6 +67,9 @@ CHECKS = {
     'C04': dict(engine='crashlens', category='fault_enumeration', technique='TLA+ spec IggyCrash (write order log -> index, crash after any mutation with torn last write, Recover; RecoverIsPrefix model-checked) + enumeration of crash images at every file mutation of real workloads (guarded hook) with torn variants, each recovered by a fresh server and judged by TLC against the recovery postcondition',
                 text='Fault enumeration: for workloads under {wait, no-wait} x {fsync} x {save threshold, segment size} the data directory is frozen after every individual file mutation (log append, index append, consumer-offset write, state-log append, segment creation) and torn variants of the last write are derived; every image is started with a fresh server, read, appended to and read again. TLC checks each recovery: start-up succeeds (a torn trailing state entry may be refused), the partition exposes a dense prefix of the accepted messages containing everything whose write had completed under wait-confirmation, the stored offset is a value that was stored, and the next message continues at the next offset.',
                 ref='7/C04'),
+    'C20': dict(engine='sdklens', category='model_checking', technique='TLA+ reference algorithm of the SDK consumer (IggySdk: Fetch / Yield / asynchronous commit delivery / interval commit / Drop / Recreate) model-checked for every commit mode x batch size x single|group (InOrderOnce, CommitLeFetched, CommitLeYielded, Complete) + TLC-generated scripts run on the REAL IggyProducer / IggyConsumer through a recording transport, traces validated by TLC (Trace_IggySdk) with the same predicates (IggySdkProps)',
+                text='The consumer algorithm of the SDK is a TLA+ specification whose invariants are the property; TLC explores all interleavings of fetches, yields, background commit deliveries, interval commits, drops and re-creations for all settings. TLC-generated operation scripts (send / take next / drop and re-create), crossed with producer settings (batch size, send interval, default partitioning, all four send calls, client-side encryption) and consumer settings (10 commit modes, batch sizes, strategies, single / group), drive the real IggyProducer and IggyConsumer against an in-process server; the client they talk through records every send_messages, poll_messages and store_consumer_offset, interleaved with the messages the consumer yields; an administrator reads every partition of every fixture topic and the stored offsets after each step. TLC validates each trace: destination and partitioning of every chunk, chunk order and size, nothing stored elsewhere, yields in offset order without gaps or repeats from right after the committed offset, explicit commits never beyond the last yielded message, commit-on-fetch only in the polling modes, the idle consumer has reached the end of its partitions, tracked commits equal the server\'s stored offsets.',
+                ref='7/C20'),
 }
 
 def main():
@@ -102,6 +105,8 @@ def main():
                       serves_properties=['C13'], kind_free_text='request round trips through the server decoder (hook H7), garbage frames'),
                  dict(name='mtlens', path='lib/mtlens.py + harness/src/mt_lens.rs + specs/IggyLogMT.tla, LogMTHistory.tla, Trace_IggyLogMT.tla',
                       serves_properties=['C12'], kind_free_text='multi-threaded stress histories validated against a history-level specification'),
+                 dict(name='sdklens', path='lib/sdklens.py + harness/src/sdk_lens.rs, rec_client.rs (generated by lib/gen_rec_client.py) + specs/IggySdkProps.tla, IggySdk.tla, MC_IggySdk.tla, Trace_IggySdk.tla',
+                      serves_properties=['C20'], kind_free_text='real IggyProducer / IggyConsumer behind a recording transport; TLC-generated scripts; trace validation'),
                  dict(name='crashlens', path='lib/crashlens.py + harness/src/crash_lens.rs + specs/IggyCrash.tla, Trace_IggyCrash.tla',
                       serves_properties=['C04'], kind_free_text='crash images at every file mutation (hook H6) + torn variants, recovered and judged against the recovery postcondition')],
         checks=[],
